@@ -107,8 +107,22 @@ def run(ctx, res):
         row["unesc"] = unescape_char(s)
         row["escs"] = escape_string(s)
         row["unescs"] = unescape_string(s)
+        # the encoding keyword: the same text written in another encoding first (it is the escaped text in that encoding) does
+        # not change what the default route writes afterwards
+        for other in ("latin-1", "utf-16-le"):
+            try:
+                want_o = row["esc"].encode(other)
+            except UnicodeError:
+                continue
+            got_o = vText(s, encoding=other).to_ical()
+            if got_o != want_o:
+                res.fail("C07: vText(s, encoding=%r).to_ical() is not the escaped text in that encoding" % other, s,
+                         observed=repr(got_o), expected=repr(want_o))
         enc = vText(s).to_ical()
-        row["direct"] = str(vText.from_ical(enc.decode("utf-8")))
+        if enc != row["esc"].encode("utf-8"):
+            res.fail("C07: vText(s).to_ical() is not the escaped text in UTF-8 (after the same text was written in another "
+                     "encoding)", s, observed=repr(enc), expected=repr(row["esc"].encode("utf-8")))
+        row["direct"] = str(vText.from_ical(enc.decode("utf-8", "replace")))
         row["direct_bytes"] = str(vText.from_ical(enc))
         try:
             row["line"] = via_line(s)
